@@ -5,18 +5,22 @@
      cfg e<k> queue|manual|inline [limit=<n>]   user executor k: FIFO queue drained by `call`/`drain` (manual: the queue is the
                                            library's ManualExecutor, `call` = Drain() = every queued job), or Call-inside-Submit;
                                            limit=n: Submits number n+1, n+2, … are answered with Drop
+     shared s<j> p<k> <ful> ready|later copies=<1|2>   a SharedFuture the client keeps for the whole program (1 or 2 handles),
+                                           its promise p<k> used at once (ready) or by a later `set p<k>` / `flush`
      in <pid> src <source>                 inner pipeline <pid> (built by a functor with behaviour async:<pid>);
      in <pid> then <step>                  must be complete before the line that refers to it
      src <source>                          begins the pipeline
      then <step>
      set p<j> | call e<k> | drain e<k> | start tofuture | start tofuture:<ex> | start detach | start detach:<ex>
      droptask | dropfuture | get | expect
+     obs s<j>                              the client looks at its kept SharedFuture: the state line ends with ` obs=<r>|pending`
      flush                                 repeat { use the pending promise with the smallest number, else let the user executor
                                            with the smallest number run one job } until nothing is left to do
      end                                   end of the program (state is reset)
 
      <source> ::= ready <r> | contract p<j> <ful> | contract_on <ex> p<j> <ful> | run <step> | async_contract <ex> p<j> <ful>
                 | task_ready <r> | schedule <step> | lazy_contract <ex> p<j> <ful> | shared_ready <r> | shared_contract p<j> <ful>
+                | shared_handle s<j>                      (a COPY of the kept SharedFuture s<j>)
      <step>   ::= <id> <R|V|E|X> <inline|on:<ex>|inherit|detach_inline|detach:<ex>|detach_inherit> <val:<int>|res:<r>|throw:<n>|async:<pid>>
      <r>      ::= v<int> | e<nat> | x<nat>          <ful> ::= set:<r> | drop          <ex> ::= inl | stp | e<k>
 
@@ -79,6 +83,11 @@ structure Inner where
   steps : List Step
 
 abbrev Table := List (Nat × Inner)
+/-- kept SharedFutures: handle number ↦ (promise, fulfilment, fulfilled at declaration) -/
+abbrev Kept := List (Nat × (Nat × Ful × Bool))
+
+def parseS (s : String) : Option Nat :=
+  if s.startsWith "s" then (s.drop 1).toString.toNat? else none
 
 def Table.find (t : Table) (pid : Nat) : Option Inner := (t.find? (·.1 == pid)).map (·.2)
 
@@ -103,7 +112,11 @@ def parseStep (tab : Table) : List String → Option Step
   | _ => none
 
 /-- source, lazy?, head step -/
-def parseSrc (tab : Table) : List String → Option (Src × Bool × Option Step)
+def parseSrc (kept : Kept) (tab : Table) : List String → Option (Src × Bool × Option Step)
+  | ["shared_handle", h] => do
+    let j ← parseS h
+    let (_, (p, f, pre)) ← kept.find? (·.1 == j)
+    pure (.sharedKept p f pre, false, none)
   | ["ready", r] => (parseR r).map fun r => (.ready r, false, none)
   | ["task_ready", r] => (parseR r).map fun r => (.ready r, true, none)
   | ["contract", p, f] => do pure (.contract (← parseP p) (← parseFul f), false, none)
@@ -120,6 +133,7 @@ structure D where
   cfg : List (Nat × ECfg) := []
   manual : List Nat := []     -- user executors backed by yaclib::ManualExecutor: `call` = Drain() = every queued job
   tab : Table := []
+  kept : Kept := []
   st : State := {}
   evs : List Event := []      -- client events of the current program (for the spec)
   lastAlloc : Nat := 0
@@ -170,17 +184,34 @@ def drain (d : D) (k : Nat) : Nat → D
        | _ => d)
     | _ => d
 
-/-- let everything that can still happen happen: fulfil the promise / run the job the pipeline waits for, until it rests -/
+/-- let everything that can still happen happen: repeat { use the unused promise with the smallest number among the one the
+    pipeline waits for and those of the kept SharedFutures; else let the executor run the job the pipeline waits for } -/
 def flush (d : D) : Nat → D
   | 0 => d
   | fuel + 1 =>
     if d.st.crashed then d else
     match d.st.ctl with
-    | .pending t =>
-      (match t.wait with
-       | .promise p _ => flush (apply d (.set p)) fuel
-       | .job _ k _ => flush (apply d (.call k)) fuel)
-    | _ => d
+    | .idle => d
+    | ctl =>
+      let awaited : List Nat := match ctl with
+        | .pending t => (match t.wait with
+                         | .promise p _ => [p]
+                         | _ => [])
+        | _ => []
+      let unset := d.kept.filterMap fun (_, (p, _, pre)) => if d.st.g.isSet p pre then none else some p
+      match (awaited ++ unset).min? with
+      | some p => flush (apply d (.set p)) fuel
+      | none =>
+        (match ctl with
+         | .pending t =>
+           (match t.wait with
+            | .job _ k _ => flush (apply d (.call k)) fuel
+            | _ => d)
+         | _ => d)
+
+def showObs (d : D) (j : Nat) : Option String :=
+  (d.kept.find? (·.1 == j)).map fun (_, (p, f, pre)) =>
+    if d.st.g.isSet p pre then s!" obs={showR f.result}" else " obs=pending"
 
 def parseStart (s : String) : Option StartKind :=
   if s = "tofuture" then some .toFuture
@@ -209,8 +240,12 @@ def stepLine (d : D) (ts : List String) : D × Option String :=
        ({ d with cfg := (k, ⟨kind != "inline", lim⟩) :: d.cfg,
                  manual := if kind == "manual" then k :: d.manual else d.manual }, some "ok")
      | none => (d, some "bad"))
+  | ["shared", h, p, f, when_, _copies] =>
+    (match parseS h, parseP p, parseFul f with
+     | some j, some p, some f => ({ d with kept := (j, (p, f, when_ == "ready")) :: d.kept }, some "ok")
+     | _, _, _ => (d, some "bad"))
   | "in" :: pid :: "src" :: rest =>
-    (match pid.toNat?, parseSrc d.tab rest with
+    (match pid.toNat?, parseSrc d.kept d.tab rest with
      | some pid, some (s, lazy, head) => ({ d with tab := (pid, ⟨s, lazy, head.toList⟩) :: d.tab }, some "ok")
      | _, _ => (d, some "bad"))
   | "in" :: pid :: "then" :: rest =>
@@ -221,7 +256,7 @@ def stepLine (d : D) (ts : List String) : D × Option String :=
         | none => (d, some "bad"))
      | _, _ => (d, some "bad"))
   | "src" :: rest =>
-    (match parseSrc d.tab rest with
+    (match parseSrc d.kept d.tab rest with
      | some (s, lazy, head) => (apply d (.src s lazy head), none)
      | none => (d, some "bad"))
   | "then" :: rest =>
@@ -249,6 +284,7 @@ def stepLine (d : D) (ts : List String) : D × Option String :=
   | ["dropfuture"] => (apply d .dropFuture, none)
   | ["get"] => (apply d .get, none)
   | ["expect"] => (d, none)
+  | ["obs", _] => (d, none)
   | _ => (d, some "bad")
 
 partial def loop (h : IO.FS.Stream) (specMode : Bool) (d : D) : IO Unit := do
@@ -260,7 +296,11 @@ partial def loop (h : IO.FS.Stream) (specMode : Bool) (d : D) : IO Unit := do
   | some o => IO.println o
   | none =>
     if specMode then IO.println (if ts = ["expect"] then showSpec d' else "-")
-    else IO.println (showState d')
+    else
+      let obs := match ts with
+        | ["obs", h] => ((parseS h).bind (showObs d')).getD ""
+        | _ => ""
+      IO.println (showState d' ++ (if d'.st.crashed then "" else obs))
   loop h specMode { d' with lastAlloc := d'.st.g.cAlloc }
 
 def main (specMode : Bool) : IO Unit := do
